@@ -1,4 +1,5 @@
 import Clover.Model.Plan
+import Clover.Model.Json
 /-! # The public operations of `DB` (db.go, json.go), each one store transaction -/
 namespace CV
 open StoreM
@@ -302,6 +303,7 @@ def execExport (c : Bytes) (kv : KVS) (φ : Faults) : Res Out × KVS × Bool × 
   | (.err e, _, f1, t1) => (.err e, kv, f1, t1)
   | (.ok (.bool true), _, f1, t1) =>
     match withTx false (Op.body likeFn fnFam (.findAll { coll := c })) (fun _ => false) kv with
+    | (.ok (.docs ds), _, f2, t2) => (.ok (.docs (ds.map jsonTypeDoc)), kv, f1 || f2, t1 ++ t2)   -- what json.Marshal writes
     | (r2, _, f2, t2) => (r2, kv, f1 || f2, t1 ++ t2)
   | (.ok _, _, f1, t1) => (.err .collNotExist, kv, f1, t1)
 
